@@ -1511,6 +1511,31 @@ func (x *c14x) cursor() {
 			Exit: c14NilErrReturn(fl), FuncEnd: true, Events: []core.Event{{Node: isWholeStore}}})
 	}
 
+	// Q.close: closing a Reader always shuts the concurrent machinery down.
+	if fl := k.flow("Q.close", c14Rac, "Reader", "close"); fl != nil {
+		info := fl.F.Info()
+		conc := x.field("Reader", "concReader")
+		closed := x.field("Reader", "closed")
+		isShutdown := func(call *ast.CallExpr) bool {
+			fn := core.Callee(info, call)
+			return fn != nil && (fn.Name() == "Close" || fn.Name() == "CloseWithoutWaiting") && core.FieldOf(info, core.RecvOf(call), conc)
+		}
+		k.mustPass("Q.close", fl.F.Name(),
+			"every path through Reader.close — other than the already-closed early return — calls concReader.Close or CloseWithoutWaiting: the closed flag is set first, so a path that returns without it (for example because a sticky error is pending) can never shut the Manager and Worker goroutines down (a goroutine leak after Close)",
+			fl, core.Query{
+				Exit:    func(n ast.Node) bool { _, ok := n.(*ast.ReturnStmt); return ok },
+				FuncEnd: true,
+				Events:  []core.Event{{Node: func(n ast.Node) bool { return core.Guaranteed(n, isShutdown) }}},
+				Exempt: func(cond ast.Expr, ci *core.CondInfo, taken bool) bool {
+					ce, neg := boolCond(cond)
+					if neg {
+						taken = !taken
+					}
+					return taken && core.FieldOf(info, ce, closed) // already closed
+				},
+			})
+	}
+
 	// Q.clamp: Reader.Read never copies past posLimit.
 	if fl := k.flow("Q.clamp", c14Rac, "Reader", "Read"); fl != nil {
 		info := fl.F.Info()
